@@ -468,8 +468,15 @@ impl CERT {
             .next()
             .ok_or(ParseError::Message("CERT data missing"))?;
 
+        // RFC 4398 section 2.2: the base64 text may be divided into any number of
+        // white-space-separated substrings
+        let mut base64 = String::from(token);
+        for token in iter {
+            base64.push_str(token);
+        }
+
         let cert_data = data_encoding::BASE64
-            .decode(token.as_bytes())
+            .decode(base64.as_bytes())
             .map_err(|_| ParseError::Message("Invalid base64 CERT data"))?;
 
         Ok(Self::new(cert_type, key_tag, algorithm, cert_data))
